@@ -297,6 +297,16 @@ def _run_assignlabels(desc):
                         o.translationsread[pos] = grains_all[gidx][1].copy()
                     o.generate_grains()
                     o.assignlabels(quiet=True)
+                    if order[0] == 0:
+                        # history: assigning again on the same object (as every refinement cycle does) gives the same answer
+                        l1 = np.asarray(o.scandata[os.path.join(wd, "p.flt")].labels).copy()
+                        d1 = np.asarray(o.scandata[os.path.join(wd, "p.flt")].drlv2).copy()
+                        o.assignlabels(quiet=True)
+                        l2 = np.asarray(o.scandata[os.path.join(wd, "p.flt")].labels)
+                        d2 = np.asarray(o.scandata[os.path.join(wd, "p.flt")].drlv2)
+                        if not (np.array_equal(l1, l2) and np.array_equal(d1, d2)):
+                            sh.violation("assignlabels:second-call-differs", {"kind": "assignlabels", "geometry": (gi * 5) % 128, "order": list(order), "tol": tol,
+                                                                            "seed": seed_of()}, {"n_labels_differ": int((l1 != l2).sum())})
                 col = o.scandata[os.path.join(wd, "p.flt")]
                 labels = np.asarray(col.labels).astype(int)
                 drl = np.asarray(col.drlv2, float)
